@@ -100,6 +100,40 @@ def root_of(F, node, fresh, params):
     return "local", path
 
 
+def write_summary(P, G):
+    """Fields of pre-existing objects a (non-flattened) callee writes directly through its
+    parameters: [(param index, 'suffix after the parameter', (record, field))].  One level only."""
+    cache = P.__dict__.setdefault("_cf_summaries", {})
+    if G.key in cache:
+        return cache[G.key]
+    out = []
+    cache[G.key] = out
+    params = [p["n"] for p in G.params]
+    fresh = _fresh_locals(G)
+    for nid, nd in enumerate(G.nodes):
+        if not nd:
+            continue
+        k = nd.get("k")
+        tgt = None
+        if k == "bin" and nd.get("asg"):
+            tgt = nd["lh"]
+        elif k == "un" and nd["op"] in ("post++", "post--", "pre++", "pre--"):
+            tgt = nd["e"]
+        elif k == "call" and nd.get("fn") and ATOMIC_WRITE.match(nd["fn"]) and nd["a"]:
+            tgt = nd["a"][0]
+        if tgt is None or G.block_of(nid) is None:
+            continue
+        kind, path = root_of(G, tgt, fresh, set(params))
+        if kind != "pre":
+            continue
+        key = re.sub(r"^[&*]+", "", path)
+        m = re.match(r"^([A-Za-z_]\w*)(->.*)$", key)
+        fo = G.field_of(tgt)
+        if m and m.group(1) in params and fo:
+            out.append((params.index(m.group(1)), m.group(2), fo))
+    return out
+
+
 class CleanFailTS(Typestate):
     track_facts = True
 
@@ -111,6 +145,7 @@ class CleanFailTS(Typestate):
         self.params = set(p["n"] for p in F.params)
         self.findings = {}
         self.sites = 0
+        self.via = {}       # (key, call node) -> (record, field) written by the callee
 
     def _write(self, st, node, nid):
         kind, path = root_of(self.F, node, self.fresh, self.params)
@@ -123,6 +158,21 @@ class CleanFailTS(Typestate):
             return (dirty, failed)
         return (dirty | {(key, nid)}, failed)
 
+    def _write_path(self, st, argnode, suffix, fo, nid):
+        kind, path = root_of(self.F, argnode, self.fresh, self.params)
+        root = re.sub(r"^[&*]+", "", path)
+        # the argument itself must designate a pre-existing object (a parameter, a getter result, or a
+        # pointer loaded from one)
+        an = self.F.nodes[self.F.strip(argnode)]
+        if kind != "pre" and not (an.get("k") == "ref" and an.get("dk") == "param"):
+            return st
+        dirty, failed = st
+        key = root + suffix
+        if failed is not None:
+            return (dirty, frozenset(x for x in failed if x[0] != key))
+        self.via[(key, nid)] = fo
+        return (dirty | {(key, nid)}, failed)
+
     def event(self, F, nid, st, ctx):
         nd = F.nodes[nid]
         k = nd.get("k")
@@ -132,6 +182,13 @@ class CleanFailTS(Typestate):
             return self._write(st, nd["e"], nid)
         if k == "call" and nd.get("fn") and ATOMIC_WRITE.match(nd["fn"]) and nd["a"]:
             return self._write(st, nd["a"][0], nid)
+        if k == "call" and nd.get("fn") and nd["fn"] not in self.fallible:
+            # a helper that writes fields of the object it is given (one level)
+            G = self.P.resolve_call(F, nd)
+            if G is not None and G.blocks:
+                for k_arg, suffix, fo in write_summary(self.P, G):
+                    if k_arg < len(nd["a"]):
+                        st = self._write_path(st, nd["a"][k_arg], suffix, fo, nid)
         return st
 
     def edge(self, F, bid, key, truth, st, ctx):
